@@ -26,6 +26,8 @@ built-in operator on the two (promoted) representation types.
   `mul_unsigned_wraps`: for an unsigned common type nothing is undefined, the result is reduced
   modulo `2^bits`.
 * `neg_exact`, `neg_guard_characterised`, `neg_unsigned_wraps` — unary minus.
+* `add_sub_denotes`, `mul_denotes`, `neg_denotes` — the representations named above denote, as exact
+  rationals `den ρ rep e = rep · ρ^e`, the sum / difference / product / negation of the operands' values.
 * `lifted_builtin_right/left` — a built-in integer operand behaves as exponent 0.
 * `wellformed_iff` — the hypothesis `PowOk S k ρ` (the instantiation of `power_value<S, k, ρ>`
   compiles) is exactly "the model does not report an ill-formed program".
@@ -223,6 +225,25 @@ theorem wellformed_iff (S : IntTy) (k ρ : Nat) (hρ : 2 ≤ ρ) (hρi : (ρ:Int
 theorem not_wellformed_ill (S : IntTy) (k ρ : Nat) (hρ : 2 ≤ ρ) (hρi : (ρ:Int) ≤ 2147483647)
     (h : ¬ PowOk S k ρ) : ∃ m, powerValueInt S k ρ = .ill m :=
   powerValueInt_ill S k ρ hρ hρi h
+
+/-! ### the same statements about the denoted rational values `den ρ rep e = rep · ρ^e` -/
+
+/-- the representation `aligned l ± aligned r` at exponent `min eL eR` denotes exactly the
+sum / difference of the denoted values of the operands -/
+theorem add_sub_denotes (op : AOp) (hop : op = .add ∨ op = .sub) (ρ : Nat) (hρ : 2 ≤ ρ) (eL eR l r : Int) :
+    den ρ (exact op (aligned ρ eL (min eL eR) l) (aligned ρ eR (min eL eR) r)) (min eL eR)
+      = (match op with | .sub => den ρ l eL - den ρ r eR | _ => den ρ l eL + den ρ r eR) := by
+  have h1 := den_aligned ρ hρ (show min eL eR ≤ eL by omega) l
+  have h2 := den_aligned ρ hρ (show min eL eR ≤ eR by omega) r
+  rcases hop with h | h <;> subst h <;> simp only [exact]
+  · rw [den_add, h1, h2]
+  · rw [den_sub, h1, h2]
+
+/-- the representation `l · r` at exponent `eL + eR` denotes the product of the denoted values -/
+theorem mul_denotes (ρ : Nat) (hρ : 2 ≤ ρ) (eL eR l r : Int) :
+    den ρ (l * r) (eL + eR) = den ρ l eL * den ρ r eR := den_mul ρ hρ l r eL eR
+
+theorem neg_denotes (ρ : Nat) (e l : Int) : den ρ (-l) e = -den ρ l e := den_neg ρ l e
 
 /-! Non-vacuity: concrete instances (hypotheses satisfiable, results as stated). -/
 
